@@ -4,7 +4,7 @@
    resumes are inputs, so every theorem below holds for every pattern of stalls, accumulating or
    not.  Tie: harness/belt.py replays every run of the real conveyors on the extracted model. *)
 From Coq Require Import List ZArith Bool Arith.
-From FV Require TBelt TBeltProofs.
+From FV Require TBelt TBeltProofs TBeltOrder.
 Import ListNotations.
 Open Scope Z_scope.
 
@@ -62,4 +62,27 @@ Definition C12_ops : list TBelt.bop :=
 Example C12_witness :
   option_map (fun b => (TBelt.arrived b, TBelt.entered b)) (TBelt.brun (TBelt.binit false 3 4 12 false) C12_ops) =
   Some ([(1%nat, 4, 21, 5); (0%nat, 0, 12, 0)], [(1%nat, 4); (0%nat, 0)]).
+Proof. vm_compute. reflexivity. Qed.
+
+(* order under stalls of the whole belt (non-accumulating conveyor): on the continuous belt the item
+   that reaches the exit is the oldest item on the belt, in every history of admission tests, puts,
+   stalls (every running item interrupted at once), releases, arrivals, gets, and idles during which
+   the belt is wholly stopped or wholly moving (the check's clause nonacc-partial-stall tests that the
+   real non-accumulating conveyor produces histories of this shape).  (Accumulating belts stop items one after the other; their order is compared, not proved.) *)
+Theorem C12_fifo_under_uniform_stalls :
+  forall c u D acc ops b i b' g, 0 < u <= D ->
+    TBeltOrder.urun (TBelt.binit false c u D acc) ops = Some b ->
+    TBeltOrder.ustep b (TBeltOrder.UReady i) = Some (b', g) ->
+    exists x m, TBelt.moving b = x :: m /\ TBelt.mid x = i.
+Proof. exact TBeltOrder.fifo_under_uniform_stalls. Qed.
+Print Assumptions C12_fifo_under_uniform_stalls.
+
+(* non-vacuity: two items 4 apart, a stall of the whole belt for 5 ticks, both arrive in entry order *)
+Definition C12_uops : list TBeltOrder.uop :=
+  [TBeltOrder.URsv false false; TBeltOrder.UPut 0; TBeltOrder.UIdle 4; TBeltOrder.URsv false false; TBeltOrder.UPut 1;
+   TBeltOrder.UIdle 3; TBeltOrder.UStall; TBeltOrder.UIdle 5; TBeltOrder.UResume; TBeltOrder.UIdle 5; TBeltOrder.UReady 0;
+   TBeltOrder.UIdle 4; TBeltOrder.UReady 1]%nat.
+Example C12_uniform_witness :
+  option_map (fun b => TBelt.arrived b) (TBeltOrder.urun (TBelt.binit false 3 4 12 false) C12_uops) =
+  Some [(1%nat, 4, 21, 5); (0%nat, 0, 17, 5)].
 Proof. vm_compute. reflexivity. Qed.
